@@ -8,8 +8,8 @@ import re
 from . import extract
 
 
-def cify(f, fn, qualname, cname, renames=(), loop_contracts=None, ptypes=None, extra_rules=()):
-    d = f.get_function(fn, qualname, ptypes)
+def cify(f, fn, qualname, cname, renames=(), loop_contracts=None, ptypes=None, extra_rules=(), cut_loops=None, in_class=False):
+    d = f.get_function(fn, qualname, ptypes, in_class=in_class)
     head = d['head']
     ret = re.sub(r'\b(static|inline)\b', '', head).strip()
     params = d['params']
@@ -23,6 +23,25 @@ def cify(f, fn, qualname, cname, renames=(), loop_contracts=None, ptypes=None, e
         text, n = re.subn(r'(?<![\w:])%s\s*\(' % re.escape(old), new + '(', text)
     # default arguments in the parameter list
     text = re.sub(r'\s*=\s*[\w.]+(?=\s*[,)])', '', text, count=0) if '=' in params else text
+    if cut_loops:
+        # M2-outline: the loop statement with the given ordinal (header + body) is cut out and replaced by the given call text
+        masked = extract.mask_noncode(text)
+        loops = [m for m in re.finditer(r'\b(for|while)\s*\(', masked)]
+        for k in sorted(cut_loops, reverse=True):
+            if k >= len(loops):
+                raise extract.ExtractError('M2-outline: %s: loop ordinal %d not found' % (qualname, k))
+            m = loops[k]
+            pc = extract.match_close(masked, m.end() - 1, '(', ')')
+            j = pc + 1
+            while masked[j] in ' \t\n':
+                j += 1
+            if masked[j] != '{':
+                raise extract.ExtractError('M2-outline: %s: loop %d has no braced body' % (qualname, k))
+            e = extract.match_close(masked, j, '{', '}')
+            text = text[:m.start()] + cut_loops[k] + text[e + 1:]
+            masked = extract.mask_noncode(text)
+            loops = [mm for mm in re.finditer(r'\b(for|while)\s*\(', masked)]
+        f.note('M2-outline', fn, len(cut_loops), 0, 0, '%s: loop ordinal(s) %s replaced by monitor calls' % (qualname, sorted(cut_loops)))
     if loop_contracts:
         masked = extract.mask_noncode(text)
         loops = [m for m in re.finditer(r'\b(for|while)\s*\(', masked)]
